@@ -150,6 +150,23 @@ CHECKS = {
         level_note="the extractor understands constant indexes and len guards, not data flow (a negative SETRANGE offset was found by the fuzz, not by the table; fixed); redcon parsing and the server's connection-level recover are outside",
         technique='Lean 4 proof by whole-table decision lifted to unbounded argc (table regenerated by go/ast extractor) + mutation fuzz with byte-level state comparison',
     ),
+    'C13': dict(
+        gens=[],
+        props='ZanVerif.Props.C13',
+        protos=[dict(name='scan', quick_seeds=2, thorough_seeds=3)],
+        rule="populations of up to 25 keys of the five types over 1-3 neighbouring tables (t, t!, t0, s) with names that are prefixes of each other / contain ':' ';' 0x00 0xff, collections of up to 12 members; "
+             "single pages and full client loops (cursor fed back until empty) of ADVSCAN / ADVREVSCAN for every type and of HSCAN/SSCAN/ZSCAN and their reverse forms, COUNT 1-6 and 0 (default) / 7 / 30 / 100 / 5001, start cursors inside and beyond the population, on pebble and mem(btree); "
+             "non-trivial = answered without error; distinct = distinct op lines",
+        trusted=["gobwas/glob MATCH filtering is not exercised (no MATCH argument is generated): the MATCH clause of the property is not covered",
+                 "the server-level cursor packing across partitions (server/scan_merge.go) is not driven"],
+        partial=["key scans (ADVSCAN with the table-boundary truncation rule): model tied differentially and judged by the oracle, no theorem yet beyond the paging core",
+                 "MATCH; stability under concurrent insert/remove between pages (C13_stable_under_static_part) not built",
+                 "a negative COUNT makes the scan handlers index an empty page (runtime panic, recovered per connection by the server): outside the property's quantifier (COUNT from 1 up), noted"],
+        assumptions=["non-empty element names (the property's quantifier): an empty member equals the exclusive lower bound of a reverse scan and is not returned by it", "1 <= COUNT <= 5000 in the theorems (checkScanCount clamps outside)"],
+        level_text="Theorems over the scan model: the client loop of HSCAN / SSCAN / ZSCAN (forward) returns exactly the members beyond the start cursor, each once, in key order, and terminates - for EVERY duplicate-free sorted population of non-empty names, every COUNT in 1..5000, every start cursor; the reverse forms return the members before the start cursor in descending order; both are instances of one paging theorem parametric in the strict total order (page = first n keys beyond the cursor, next cursor = last key, stop at a short page). The model (store-level pages, checkScanCount, the node layer's next-cursor rule and table-boundary truncation, the client loop) is tied line by line to the real ADVSCAN/ADVREVSCAN merge handlers and HSCAN/SSCAN/ZSCAN read handlers on a real store.",
+        level_note="MATCH and cross-partition cursor packing not covered; ADVSCAN's table rule is differential/oracle only",
+        technique="Lean 4 proof (paged scan = keys beyond cursor, both directions) + line-by-line differential run of the real scan handlers",
+    ),
 }
 
 # properties not (yet) claimed, with the reason; bin/mkmanifest drops an entry as soon as CHECKS has it
